@@ -19,16 +19,25 @@ static void unchanged(const Obs &now, const Obs &before, const char *stage){
   fpsym_check(now.ints == before.ints && now.coords == before.coords && now.outdep.size() == before.outdep.size(), (s + ": structure unchanged by a mutation of the other grid").c_str());
   if (now.outdep.size() == before.outdep.size()) for (size_t i=0;i<now.outdep.size();i++) fpsym_ident(now.outdep[i], before.outdep[i], (s + ": values / coefficients / surrogate unchanged by a mutation of the other grid").c_str());
 }
-static void mutate(TasmanianSparseGrid &grid, const GridSpec &g, int base_id){
-  int d = g.dims; SymModel fresh(grid.getNumOutputs(), base_id, -1.0, 1.0, !grid.isWavelet());
+static void mutate(TasmanianSparseGrid &grid, const GridSpec &g, int base_id, int ob = 0, int full_outs = -1, bool refine = true){
+  int d = g.dims; int my = grid.getNumOutputs(); if (full_outs < 0) full_outs = my;
+  // the fresh model always has the outputs of the SOURCE; a copy restricted to [ob, ob+my) receives the matching slice of the same symbols
+  SymModel full(full_outs, base_id, -1.0, 1.0, !grid.isWavelet());
+  struct { SymModel *m; int ob, my, fo; std::vector<double> values(const std::vector<double> &pts, int dd){ std::vector<double> y = m->values(pts, dd); if (my == fo) return y; size_t n = y.size() / fo; std::vector<double> r(n * my); for (size_t i=0;i<n;i++) for (int k=0;k<my;k++) r[i * my + k] = y[i * fo + ob + k]; return r; } } fresh = {&full, ob, my, full_outs};
   if (grid.isUsingConstruction()){
-    std::vector<double> cand = (grid.isLocalPolynomial() || grid.isWavelet()) ? grid.getCandidateConstructionPoints(0.0, refine_classic, -1, g.ll) : grid.getCandidateConstructionPoints(type_level, 0, g.ll);
-    size_t take = std::min<size_t>(cand.size() / d, 3); std::vector<double> x(cand.begin(), cand.begin() + take * d);
-    if (take) grid.loadConstructedPoints(x, fresh.values(x, d));
+    // several rounds so that parked samples get connected; the candidates are taken in lexicographic order (their priority order depends on the outputs)
+    for (int round=0; round<3; round++){ // enough to connect the parked sample (two levels down)
+      std::vector<double> cand = (grid.isLocalPolynomial() || grid.isWavelet()) ? grid.getCandidateConstructionPoints(0.0, refine_classic, -1, g.ll) : grid.getCandidateConstructionPoints(type_level, 0, g.ll);
+      std::vector<std::vector<double>> cp; for (size_t i=0;i+d<=cand.size();i+=d) cp.push_back(std::vector<double>(cand.begin() + i, cand.begin() + i + d)); std::sort(cp.begin(), cp.end());
+      size_t take = std::min<size_t>(cp.size(), 20); std::vector<double> x; for (size_t i=0;i<take;i++) x.insert(x.end(), cp[i].begin(), cp[i].end());
+      if (!take) break;
+      grid.loadConstructedPoints(x, fresh.values(x, d));
+    }
     grid.finishConstruction();
   }
   if (grid.getNumNeeded() > 0) grid.loadNeededValues(fresh.values(grid.getNeededPoints(), d));
-  else grid.loadNeededValues(fresh.values(grid.getLoadedPoints(), d));     // overwrite every value
+  else if (refine) grid.loadNeededValues(fresh.values(grid.getLoadedPoints(), d));     // overwrite every value (not in the compare-after-same-operations mode: it would hide what construction loaded)
+  if (!refine) return;   // value-dependent refinement legitimately differs between a grid and a copy of a sub-range of its outputs
   if (grid.isLocalPolynomial() || grid.isWavelet()) grid.setSurplusRefinement(0.0, refine_classic, -1, g.ll);
   else if (!OneDimensionalMeta::isNonNested(grid.getRule())) grid.setAnisotropicRefinement(type_iptotal, 2, 0, g.ll);
   std::vector<double> a(d, -2.0), b(d, 3.0); if (g.rule.find("hermite") == std::string::npos && g.rule.find("laguerre") == std::string::npos) grid.setDomainTransform(a, b);
@@ -49,6 +58,10 @@ int main(int argc, char **argv){
       std::vector<double> x(cand.begin() + (round == 1 && nc > 1 ? d : 0), cand.begin() + (round == 1 && nc > 1 ? d : 0) + take * d);   // second round: a sample that may stay parked
       src.loadConstructedPoints(x, model.values(x, d));
     }
+    // one sample far down the hierarchy: it is not connected to the loaded points and stays parked in the construction data
+    { GridSpec deep = g; deep.depth = g.depth + 2; deep.ll.clear(); TasmanianSparseGrid dg; makeGrid(dg, deep); std::vector<double> dp = dg.getPoints(); int nd = dg.getNumPoints();
+      std::vector<double> x(dp.begin() + (size_t) (nd - 1) * d, dp.begin() + (size_t) nd * d); int before = src.getNumLoaded();
+      if (g.ll.empty()){ src.loadConstructedPoints(x, model.values(x, d)); fpsym_note("deep_sample_parked", src.getNumLoaded() == before); } }
   } else {
     src.loadNeededValues(model.values(src.getNeededPoints(), d));
     if (history == 1){ if (src.isLocalPolynomial() || src.isWavelet()) src.setSurplusRefinement(0.0, refine_classic, -1, g.ll); else src.setAnisotropicRefinement(type_iptotal, 2, 0, g.ll); }
@@ -71,7 +84,13 @@ int main(int argc, char **argv){
   }
   // mutate one side, the other must not change
   if (mut == 0){ mutate(src, g, 7000); Obs now = observe(*copy, probe); unchanged(now, oc, "copy after mutating the source"); }
-  else { mutate(*copy, g, 7000); Obs now = observe(src, probe); unchanged(now, os, "source after mutating the copy"); }
+  else if (mut == 1){ mutate(*copy, g, 7000); Obs now = observe(src, probe); unchanged(now, os, "source after mutating the copy"); }
+  else {
+    // the same further operations (same fresh values) on source and copy: the copy must still be the restriction of the source
+    mutate(src, g, 7000, 0, -1, false); mutate(*copy, g, 7000, b, outs, false);
+    compare(observe(*copy, probe), observe(src, probe), b, e, "after the same further operations on source and copy");
+    fpsym_note("loaded_after_further_operations", src.getNumLoaded());
+  }
   if (model.symbolic && !os.outdep.empty()) fpsym_nonconst(os.outdep[0], "witness: observables depend on the symbols");
   fpsym_finish(); return 0;
 }
